@@ -314,6 +314,26 @@ func (w *World) Enabled() []Op {
 			}
 		}
 	}
+	// a release without allocation key: "release every allocation of this application"
+	for _, a := range s.Apps {
+		if m.Apps[a.ID] != "accepted" {
+			continue
+		}
+		bound, pending := false, false
+		for _, k := range sortedKeys(m.Keys) {
+			if ks := m.Keys[k]; ks.App == a.ID && ks.State == "bound" {
+				bound = true
+			}
+		}
+		for _, p := range m.Pending {
+			if p.App == a.ID {
+				pending = true
+			}
+		}
+		if bound && !pending {
+			add(Op{K: "RELEASE_ALL", A: a.ID})
+		}
+	}
 	for _, f := range s.Foreign {
 		if _, ok := m.Foreign[f.Key]; !ok {
 			if _, nodeOK := m.Nodes[f.Node]; nodeOK && m.ForeignV[f.Key] == 0 {
@@ -725,6 +745,15 @@ func (w *World) Apply(op Op) *Step {
 			w.sendAlloc(nil, []*si.AllocationRelease{{PartitionName: PartitionName, ApplicationID: app, AllocationKey: op.A, TerminationType: si.TerminationType_STOPPED_BY_RM, Message: "shim release"}})
 		}
 		delete(m.Keys, op.A)
+	case "RELEASE_ALL":
+		f = func() {
+			w.sendAlloc(nil, []*si.AllocationRelease{{PartitionName: PartitionName, ApplicationID: op.A, AllocationKey: "", TerminationType: si.TerminationType_STOPPED_BY_RM, Message: "shim releases everything"}})
+		}
+		for _, k := range sortedKeys(m.Keys) {
+			if ks := m.Keys[k]; ks.App == op.A && ks.State == "bound" {
+				delete(m.Keys, k)
+			}
+		}
 	case "FOREIGN_ADD", "FOREIGN_UPDATE":
 		fs := s.ForeignSpec(op.A)
 		res := fs.Res
